@@ -35,10 +35,69 @@ func (x *Exec) stopFaults() { x.sim.Cfg.FaultAdd, x.sim.Cfg.FaultInit, x.sim.Cfg
 
 // world performs one filesystem operation. One real syscall per simulator step
 // (except where noted), followed by shadow tracking of new inodes.
+// lp maps a path below the deep directory (possibly longer than PATH_MAX) to
+// an equivalent short one through the descriptor the harness holds on it.
+func (x *Exec) lp(p string) string {
+	if x.deepPrefix != "" && strings.HasPrefix(p, x.deepPrefix+"/") {
+		return fmt.Sprintf("/proc/self/fd/%d/%s", x.deepFD, p[len(x.deepPrefix)+1:])
+	}
+	return p
+}
+
+// mkdirDeep builds, below the working directory, a chain of directories whose
+// absolute path is (about) n bytes long, one mkdirat / openat per component.
+func (x *Exec) mkdirDeep(n int) error {
+	cur, err := unix.Open(".", unix.O_PATH|unix.O_DIRECTORY, 0)
+	if err != nil {
+		return err
+	}
+	rel := ""
+	for i := 0; len(x.root)+1+len(rel) < n; i++ {
+		room := n - (len(x.root) + 1 + len(rel)) - 1
+		if rel == "" {
+			room++
+		}
+		if room > 200 {
+			room = 200
+		}
+		if room < 1 {
+			break
+		}
+		comp := fmt.Sprintf("p%d", i)
+		for len(comp) < room {
+			comp += "_"
+		}
+		comp = comp[:room]
+		if err := unix.Mkdirat(cur, comp, 0o755); err != nil {
+			unix.Close(cur)
+			return err
+		}
+		next, err := unix.Openat(cur, comp, unix.O_PATH|unix.O_DIRECTORY, 0)
+		unix.Close(cur)
+		if err != nil {
+			return err
+		}
+		cur = next
+		if rel == "" {
+			rel = comp
+		} else {
+			rel += "/" + comp
+		}
+	}
+	x.deepPrefix, x.deepFD = rel, cur
+	x.fds[-77] = cur // closed with the other descriptors of the world at the end of the run
+	x.sim.Track(fmt.Sprintf("/proc/self/fd/%d/.", cur))
+	return nil
+}
+
 func (x *Exec) world(task string, op Op) {
 	ssim.Yield("world")
 	var err error
+	orig := op
+	op.P, op.P2 = x.lp(op.P), x.lp(op.P2)
 	switch op.K {
+	case OpDeepMk:
+		err = x.mkdirDeep(op.N)
 	case OpCreate:
 		var fd int
 		fd, err = unix.Open(op.P, unix.O_CREAT|unix.O_WRONLY|unix.O_EXCL, 0o644)
@@ -126,7 +185,7 @@ func (x *Exec) world(task string, op Op) {
 	}
 	x.sim.Dirty = true
 	x.sim.WorldTask = ssim.Cur().ID
-	wr := WorldRec{Step: step(), Task: task, Op: op}
+	wr := WorldRec{Step: step(), Task: task, Op: orig}
 	if err != nil {
 		wr.Err = classify(err)
 	}
